@@ -30,7 +30,7 @@ from dataclasses import dataclass, field
 from pathlib import Path
 from typing import Any, Callable, Dict, List, Optional, Tuple
 
-LEAN_TY = {"dict": "PyDict", "pyval": "PyVal", "items": "PyDict", "strlist": "List String", "set": "PSet", "bool": "Bool", "nat": "Nat", "step": "PStep", "unit": "Unit", "boolorset": "BoolOrSet", "str": "String", "natlist": "List Nat"}
+LEAN_TY = {"obj": "Unit", "dict": "PyDict", "pyval": "PyVal", "items": "PyDict", "strlist": "List String", "set": "PSet", "bool": "Bool", "nat": "Nat", "step": "PStep", "unit": "Unit", "boolorset": "BoolOrSet", "str": "String", "natlist": "List Nat"}
 SET_MUTATORS = {"update", "add", "difference_update", "discard", "remove", "clear"}
 LEAN_KEYWORDS = {"from", "to", "end", "at", "in", "do", "then", "else", "if", "let", "have", "show", "fun", "open", "local", "instance", "class", "structure", "def", "theorem", "where", "with", "match", "return", "for", "mut", "unless", "break", "continue", "try", "catch", "finally", "import", "namespace", "section", "variable", "universe", "export", "prefix", "infix", "notation", "macro", "syntax", "deriving", "extends", "abbrev", "example", "axiom", "private", "protected", "partial", "unsafe", "mutual", "inductive", "Type", "Prop", "Sort", "by", "using", "calc", "nomatch", "nofun", "forall", "exists"}
 
@@ -79,6 +79,8 @@ class ModuleSpec:
     self_fields: Dict[str, str] = field(default_factory=dict)  # field -> type
     ignore_calls: List[str] = field(default_factory=list)  # "logger.error", "time.sleep" ... (no semantic effect in the model)
     prelude: str = ""
+    expr_map: Dict[str, Tuple[str, str]] = field(default_factory=dict)  # ast.unparse(expr) -> (lean text, type), checked first
+    attr_assign_events: Dict[str, str] = field(default_factory=dict)  # "command.step_is_done" -> event name (value appended)
     imports: List[str] = field(default_factory=lambda: ["MlodaVerif.Model.PyRt"])
     opens: List[str] = field(default_factory=lambda: ["PyRt"])
 
@@ -126,6 +128,8 @@ class FnTranslator:
                 tgt = dotted(node.targets[0].value)
                 if tgt and tgt.startswith("self.") and tgt[5:] in self.ms.self_fields:
                     self.self_mut = True
+            if isinstance(node, ast.Assign) and len(node.targets) == 1 and dotted(node.targets[0]) in self.ms.attr_assign_events:
+                self.effects = True
             if isinstance(node, ast.AugAssign):
                 tgt = dotted(node.target)
                 if tgt in self.env and self.env[tgt] == "set" and tgt not in self.mutated:
@@ -137,6 +141,8 @@ class FnTranslator:
                     o = self.ms.opaque[d]
                     if o.oracle:
                         self.oracles[o.oracle] = LEAN_TY[o.returns or "bool"]
+                    if o.may_raise and o.raise_arg is None:
+                        pass
                     if o.may_raise:
                         self.oracles[o.may_raise] = "Nat → Bool" if o.raise_arg is not None else "Bool"
                 if d and d.startswith("self.") and d[5:] in self.mod.translated:
@@ -190,10 +196,17 @@ class FnTranslator:
             return txt
         if ty == "set":
             return f"PSet.truthy {txt}"
+        if ty == "obj":
+            return "true"  # an object without __bool__/__len__ is truthy
         raise Unsupported(f"truthiness of a value of type {ty}: {txt}")
 
     def expr(self, e: ast.expr, pre: List[str]) -> Tuple[str, str]:
         """returns (lean term, type); statements that must run before (monadic binds of calls) are appended to `pre`"""
+        key = ast.unparse(e)
+        if key in self.ms.expr_map:
+            return self.ms.expr_map[key]
+        if isinstance(e, ast.JoinedStr):
+            return '"<f-string>"', "str"  # the text of messages is not modelled
         if isinstance(e, ast.Constant):
             if e.value is True:
                 return "true", "bool"
@@ -220,11 +233,17 @@ class FnTranslator:
         if isinstance(e, ast.UnaryOp) and isinstance(e.op, ast.Not):
             t, ty = self.expr(e.operand, pre)
             return f"!({self.truthy(t, ty)})", "bool"
+        if isinstance(e, ast.BoolOp) and isinstance(e.op, ast.Or) and len(e.values) == 2 and isinstance(e.values[1], ast.Constant) and e.values[1].value is None:
+            t0, ty0 = self.expr(e.values[0], pre)
+            if ty0 == "obj":
+                return t0, "obj"  # `obj or None`
+            raise Unsupported(f"`{ty0} or None`")
         if isinstance(e, ast.BoolOp):
+            first = self.expr(e.values[0], pre)
             n0 = len(pre)
-            parts = [self.expr(v, pre) for v in e.values]
+            parts = [first] + [self.expr(v, pre) for v in e.values[1:]]
             if len(pre) != n0:
-                raise Unsupported("call with effects under and/or (evaluation would not be short-circuited)")
+                raise Unsupported("call with effects in a later operand of and/or (evaluation would not be short-circuited)")
             op = " && " if isinstance(e.op, ast.And) else " || "
             return "(" + op.join(self.truthy(t, ty) for t, ty in parts) + ")", "bool"
         if isinstance(e, ast.Compare):
@@ -271,7 +290,7 @@ class FnTranslator:
 
     def call(self, e: ast.Call, pre: List[str]) -> Tuple[str, str]:
         d = dotted(e.func)
-        if e.keywords and not (d and d.startswith("self.") and d[5:] in self.mod.translated):
+        if e.keywords and not (d and d.startswith("self.") and d[5:] in self.mod.translated) and d not in self.ms.opaque:
             raise Unsupported(f"keyword arguments in {ast.unparse(e)}")
         if d in ("all", "any") and len(e.args) == 1 and isinstance(e.args[0], ast.GeneratorExp):
             g = e.args[0]
@@ -424,6 +443,10 @@ class FnTranslator:
             pre.append(f"if {cond} then\n  {self.try_flag} := true\nelse\n  {ev}")
         else:
             pre.append(ev)
+        if o.returns in ("obj", "unit"):
+            return "()", o.returns
+        if o.returns == "str" and not o.oracle:
+            return '"<str>"', "str"
         if o.returns:
             return lname(o.oracle or "oracle"), o.returns
         return "()", "unit"
@@ -439,6 +462,17 @@ class FnTranslator:
         pre.clear()
 
     def block(self, stmts: List[ast.stmt], ind: int) -> None:
+        # a local first assigned inside a nested block is a Lean `let mut` scoped to that block: it is forgotten afterwards,
+        # so a later use outside the block (legal in Python) is reported as an unknown name instead of being mistranslated
+        env0, declared0 = dict(self.env), set(self.declared)
+        try:
+            self._block(stmts, ind)
+        finally:
+            if ind > 1:
+                self.env = {k: v for k, v in self.env.items() if k in env0}
+                self.declared = {k for k in self.declared if k in declared0}
+
+    def _block(self, stmts: List[ast.stmt], ind: int) -> None:
         if not stmts:
             self.emit(ind, "pure ()")
         for s in stmts:
@@ -507,6 +541,14 @@ class FnTranslator:
             else:
                 raise Unsupported(f"augmented assignment {ast.unparse(s)}")
             return
+        if isinstance(s, ast.Assign) and len(s.targets) == 1 and isinstance(s.targets[0], ast.Attribute) and dotted(s.targets[0]) in self.ms.attr_assign_events:
+            v, vty = self.expr(s.value, pre)
+            self.flush(ind, pre)
+            if vty != "bool":
+                raise Unsupported(f"attribute assignment of a {vty}")
+            self.effects_used = True
+            self.emit(ind, f'log := log ++ ["{self.ms.attr_assign_events[dotted(s.targets[0])]}:=" ++ toString {v}]')
+            return
         if isinstance(s, ast.Assign) and len(s.targets) == 1 and isinstance(s.targets[0], ast.Subscript):
             tg = s.targets[0]
             dd = dotted(tg.value)
@@ -529,8 +571,6 @@ class FnTranslator:
                     raise Unsupported(f"{n} changes type {self.env[n]} -> {ty}")
                 self.emit(ind, f"{lname(n)} := {t}")
             else:
-                if ind != 1:
-                    raise Unsupported(f"first assignment of local {n} inside a nested block")
                 self.env[n] = ty
                 self.declared.add(n)
                 self.emit(ind, f"let mut {lname(n)} : {LEAN_TY[ty]} := {t}")
@@ -593,6 +633,9 @@ class FnTranslator:
                 ctor = ".exception" if dotted(s.exc.func) == "Exception" else ".valueError"
                 msg = str(s.exc.args[0].value).replace('"', "'")
                 self.emit(ind, f'throw ({ctor} "{msg}")')
+                return
+            if isinstance(s.exc, ast.Call) and dotted(s.exc.func) == "Exception" and all(isinstance(a, ast.Name) and self.env.get(a.id) == "str" for a in s.exc.args):
+                self.emit(ind, f'throw (.exception "{ast.unparse(s.exc)}")')
                 return
             raise Unsupported(f"raise {ast.unparse(s)}")
         if isinstance(s, ast.Try):
